@@ -331,6 +331,49 @@ func ruleC11_2(c *Ctx) {
 			v ssa.Value
 			k string
 		}
+		// the printer, or a load of a local variable that only ever holds the printer (a parameter shared with a closure)
+		isPrinter := func(v ssa.Value) bool {
+			if v == p {
+				return true
+			}
+			if ld, ok := v.(*ssa.UnOp); ok && ld.Op == token.MUL {
+				if vals, ok := cellStores(ld.X); ok && len(vals) > 0 {
+					for _, sv := range vals {
+						if sv != p {
+							return false
+						}
+					}
+					return true
+				}
+			}
+			return false
+		}
+		// the buffer a print or an advance speaks about: the value itself, or - when the buffer lives in a local
+		// variable that a closure shares (every use is then a fresh load) - the variable. An advance of a variable
+		// only counts as such when its result goes back into the same variable ("src = src[k:]").
+		baseOf := func(v ssa.Value) ssa.Value {
+			if ld, ok := v.(*ssa.UnOp); ok && ld.Op == token.MUL {
+				if al, ok := ld.X.(*ssa.Alloc); ok {
+					return al
+				}
+			}
+			return v
+		}
+		storedBack := func(sl *ssa.Slice) bool {
+			al, isCell := baseOf(sl.X).(*ssa.Alloc)
+			if !isCell || baseOf(sl.X) == sl.X {
+				return true // not a variable: nothing to ask
+			}
+			if sl.Referrers() == nil {
+				return false
+			}
+			for _, r := range *sl.Referrers() {
+				if st, ok := r.(*ssa.Store); ok && st.Addr == ssa.Value(al) && st.Val == ssa.Value(sl) {
+					return true
+				}
+			}
+			return false
+		}
 		keyOf := func(v ssa.Value) string {
 			if cst, ok := v.(*ssa.Const); ok && cst.Value != nil {
 				return "const:" + cst.Value.ExactString()
@@ -353,7 +396,7 @@ func ruleC11_2(c *Ctx) {
 			}
 			isP := func(a, b ssa.Value) bool {
 				cst, ok := b.(*ssa.Const)
-				return a == p && ok && cst.IsNil()
+				return isPrinter(a) && ok && cst.IsNil()
 			}
 			if !(isP(cmp.X, cmp.Y) || isP(cmp.Y, cmp.X)) {
 				return true
@@ -405,7 +448,7 @@ func ruleC11_2(c *Ctx) {
 				switch x := ins.(type) {
 				case *ssa.Call:
 					cc := x.Common()
-					if !cc.IsInvoke() && cc.Value == p && len(cc.Args) >= 1 {
+					if !cc.IsInvoke() && isPrinter(cc.Value) && len(cc.Args) >= 1 {
 						// p(bytes, ...)
 						if cst, ok := cc.Args[0].(*ssa.Const); ok && cst.IsNil() {
 							continue // a line without bytes
@@ -428,7 +471,7 @@ func ruleC11_2(c *Ctx) {
 							continue
 						}
 						nPrints++
-						kk := key{sl.X, keyOf(sl.High)}
+						kk := key{baseOf(sl.X), keyOf(sl.High)}
 						if cur[kk] {
 							report(ins, "bytes printed twice")
 						}
@@ -441,9 +484,11 @@ func ruleC11_2(c *Ctx) {
 					if x.Low != nil && x.High == nil {
 						// advance v[k:]
 						nAdv++
-						kk := key{x.X, keyOf(x.Low)}
+						kk := key{baseOf(x.X), keyOf(x.Low)}
 						if !cur[kk] {
 							report(ins, "bytes consumed without being printed")
+						} else if !storedBack(x) {
+							report(ins, "the advanced buffer does not replace the variable whose prefix was printed")
 						}
 						delete(cur, kk)
 					}
